@@ -20,6 +20,28 @@ pub fn enc_text(s: &str) -> J {
     J::Array(s.chars().map(|c| json!(c as u32)).collect())
 }
 
+fn dec_f64(j: &J) -> Option<f64> {
+    match j {
+        J::Number(n) => n.as_f64(),
+        J::String(s) => s.parse().ok(),
+        _ => None,
+    }
+}
+
+/// proleptic Gregorian date of a day number (days since 1970-01-01)
+pub fn civil_from_days(z: i64) -> (i64, i64, i64) {
+    let z = z + 719468;
+    let era = if z >= 0 { z } else { z - 146096 } / 146097;
+    let doe = z - era * 146097;
+    let yoe = (doe - doe / 1460 + doe / 36524 - doe / 146096) / 365;
+    let y = yoe + era * 400;
+    let doy = doe - (365 * yoe + yoe / 4 - yoe / 100);
+    let mp = (5 * doy + 2) / 153;
+    let d = doy - (153 * mp + 2) / 5 + 1;
+    let m = if mp < 10 { mp + 3 } else { mp - 9 };
+    (if m <= 2 { y + 1 } else { y }, m, d)
+}
+
 fn dec_i64(j: &J) -> Option<i64> {
     match j {
         J::Number(n) => n.as_i64(),
@@ -33,9 +55,29 @@ pub fn dec_value(j: &J) -> Result<Value, String> {
     Ok(match k {
         "int" => Value::scalar(dec_i64(&j["n"]).ok_or("bad int")?),
         "float" => {
-            let num = dec_i64(&j["num"]).ok_or("bad float num")? as f64;
-            let den = dec_i64(&j["den"]).ok_or("bad float den")? as f64;
+            if let Some(sp) = j.get("special").and_then(|s| s.as_str()) {
+                return Ok(Value::scalar(match sp {
+                    "inf" => f64::INFINITY,
+                    "-inf" => f64::NEG_INFINITY,
+                    "nan" => f64::NAN,
+                    "-0" => -0.0,
+                    _ => return Err("bad float special".into()),
+                }));
+            }
+            let num = dec_f64(&j["num"]).ok_or("bad float num")?;
+            let den = dec_f64(&j["den"]).ok_or("bad float den")?;
             Value::scalar(num / den)
+        }
+        "date" => {
+            let (y, m, d) = civil_from_days(dec_i64(&j["days"]).ok_or("bad date")?);
+            Value::scalar(liquid_core::model::Date::from_ymd(y as i32, m as u8, d as u8))
+        }
+        "datetime" => {
+            let inst = dec_i64(&j["inst"]).ok_or("bad datetime")?;
+            let off = dec_i64(&j["off"]).ok_or("bad offset")? as i32;
+            let dt = liquid_core::model::DateTime::from_str(&inst.to_string()).ok_or("timestamp rejected")?;
+            let dt = dt.with_offset(time::UtcOffset::from_whole_seconds(off).map_err(|e| e.to_string())?);
+            Value::scalar(dt)
         }
         "str" => Value::scalar(dec_text(&j["s"]).ok_or("bad str")?),
         "bool" => Value::scalar(j["b"].as_bool().ok_or("bad bool")?),
